@@ -3,7 +3,8 @@ import copy, json, re
 from vlib import core, gen, corr
 
 LEVEL = "proof"
-TEXT = ("`validateParamsExist o = [] <-> every (referrer, name) in paramRefs o is declared` (and the same for services), the count of diagnostics = count of dangling "
+TEXT = ("compiled_service_refs_declared / compiled_param_refs_declared: for every program that runs what Compile.compile returned and that the existence validators accept, the names the runtime looks up for the references written in the configuration (svcByName for an @service argument of a service or decorator, the parameter table for every %reference% the runtime tokeniser finds) are declared — the look-ups whose failure is the run-time error `does not exist` succeed. "
+        "`validateParamsExist o = [] <-> every (referrer, name) in paramRefs o is declared` (and the same for services), the count of diagnostics = count of dangling "
         "occurrences, todo services are declared and refer to nothing: Lean theorems for every compiled configuration, with paramRefs enumerating parameters, "
         "service arguments/calls/fields and decorator arguments. Tied by running model and implementation on generated configurations in which references are "
         "removed/renamed in every position, singly and combined; the implementation's verdict is also judged by an independent reference walker in Python. pattern_deps_all_refs: the recorded parameter dependencies of a compiled pattern are exactly the references among its tokens, in any position. The run-time consequence is exercised: accepted containers are built and asked for every service, parameter and tag — no answer may say 'does not exist'.")
